@@ -241,7 +241,9 @@ def run_case(case, rec):
             rec.note("grid_points_unmatched_%s" % name, nmatch)
             rec.require("grid_maps_onto_itself[%s]" % name, False, mechanism=mech + ":grid-points")
         else:
-            rec.check("feature_invariance[%s]" % name, df, 1e-7, mechanism=mech + ":features", detail=det)
+            # 1e-6: the Gaussian interpolation plan turns 1 ulp of rho into up to 1e-7 of a feature (DESIGN.md, C10 note);
+            # the first bound, 1e-7, raised a false alarm in the thorough tier (1.05e-7); seeded changes give >= 4e-4
+            rec.check("feature_invariance[%s]" % name, df, 1e-6, mechanism=mech + ":features", detail=det)
         moved = float(np.max(np.abs(dm2 - dm))) > 1e-3 or name == "translation"
         if ml_share >= 1e-3 and moved:
             rec.nontrivial("%s-%s" % (name, np.array2string(np.asarray(R, dtype=int).ravel(), separator="") if name == "octahedral" else ""))
@@ -266,7 +268,9 @@ def run_case(case, rec):
         rec.check("haar_rotation_energy[level3]", errs[3], 3e-3, mechanism="rotation[haar]:energy-level3",
                   detail={"errs": errs})
         # refinement: the level-3 error may not exceed the level-1 error unless both are already at the floor
-        rec.check("haar_rotation_refinement", errs[3] / max(errs[1], 5e-5), 1.5,
+        # (quadrature errors of one random rotation are not monotone in the level: the first version, factor 1.5 over
+        # max(err1, 5e-5), raised a false alarm in the thorough tier with errors 1.5e-4 / 3.2e-4, both far below the bounds)
+        rec.check("haar_rotation_refinement", errs[3] / max(errs[1], 2e-4), 3.0,
                   mechanism="rotation[haar]:error-grows-with-grid-level", detail={"errs": errs})
         rec.tag("operation", "haar")
         sample["haar"] = errs
